@@ -314,8 +314,10 @@ where
         Either::Right(ack) => ack,
         Either::Left(pkt) => {
             let (pkt, payload) = pkt.into_inner();
+            // QoS 2: the id stays in use until PUBREL is answered with PUBCOMP
+            let release_id = if qos2 { 0 } else { packet_id };
             return inner
-                .control_pkt(ProtocolMessage::publish(pkt, payload, packet_size), packet_id)
+                .control_pkt(ProtocolMessage::publish(pkt, payload, packet_size), release_id)
                 .await;
         }
     };
